@@ -104,7 +104,18 @@ type Directive struct { // table / codec / policy style special obligations
 	Line    int
 }
 
+// Guard: the fields of a struct type protected by one of its mutexes
+type Guard struct {
+	PkgPath string
+	Type    string
+	Mu      string
+	Fields  map[string]bool
+	File    string
+	Line    int
+}
+
 type Specs struct {
+	Guards     map[string][]*Guard // by pkgPath.Type
 	Contracts  map[string]*Contract // by Key
 	ByPkg      map[string][]*Contract
 	SpecFuncs  map[string]*SpecFunc
@@ -120,7 +131,7 @@ var headerRe = regexp.MustCompile(`^func\s*(\(\s*(\w+)?\s*(\*?)\s*(\w+)\s*\))?\s
 var clauseKw = map[string]bool{"property": true, "opts": true, "requires": true, "ensures": true, "modifies": true,
 	"loop": true, "invariant": true, "inline": true, "implements": true, "counts": true, "records": true, "at_call": true, "let": true, "params": true, "decreases": true}
 var topKw = map[string]bool{"spec": true, "ghost": true, "lemma": true, "axiom": true, "func": true, "closure": true,
-	"interface": true, "extern": true, "directive": true, "fnvalue": true}
+	"interface": true, "extern": true, "directive": true, "fnvalue": true, "guards": true}
 
 type rawLine struct {
 	text string
@@ -206,6 +217,19 @@ func loadContractFile(path, pkgPath string, resolveQual func(q string) string, s
 				return fail(l, "spec func %s redefined differently (first at %s:%d)", sf.Name, old.File, old.Line)
 			}
 			sp.SpecFuncs[sf.Name] = sf
+			cur, curLoop, curLemma, curDir = nil, nil, nil, nil
+		case "guards":
+			// guards Type.mu: f1, f2
+			k := strings.Index(rest, ":")
+			if k < 0 || !strings.Contains(rest[:k], ".") {
+				return fail(l, "guards Type.mutex: field, field")
+			}
+			tm := strings.SplitN(strings.TrimSpace(rest[:k]), ".", 2)
+			g := &Guard{PkgPath: pkgPath, Type: tm[0], Mu: tm[1], Fields: map[string]bool{}, File: path, Line: l.line}
+			for _, f := range splitNames(rest[k+1:]) {
+				g.Fields[f] = true
+			}
+			sp.Guards[pkgPath+"."+tm[0]] = append(sp.Guards[pkgPath+"."+tm[0]], g)
 			cur, curLoop, curLemma, curDir = nil, nil, nil, nil
 		case "ghost":
 			m := regexp.MustCompile(`^var\s+(\w+)\s+(.*)$`).FindStringSubmatch(rest)
@@ -466,7 +490,7 @@ func splitNames(s string) []string {
 }
 
 func newSpecs() *Specs {
-	return &Specs{Contracts: map[string]*Contract{}, ByPkg: map[string][]*Contract{}, SpecFuncs: map[string]*SpecFunc{}, Ghosts: map[string]*GhostVar{}}
+	return &Specs{Guards: map[string][]*Guard{}, Contracts: map[string]*Contract{}, ByPkg: map[string][]*Contract{}, SpecFuncs: map[string]*SpecFunc{}, Ghosts: map[string]*GhostVar{}}
 }
 
 func (c *Contract) hasProp(id string) bool {
